@@ -173,7 +173,7 @@ func init() {
 	// internals with their arguments (a slice of a tuple type, a type grown by concatenation), and the second
 	// use must not disturb the first result, the intermediate value or the pool values they came from.
 	// (Registered three times: chains are where this library's functions meet each other's results.)
-	for _, name := range []string{"StdlibChain", "StdlibChainB", "StdlibChainC"} {
+	for _, name := range []string{"StdlibChain", "StdlibChainB", "StdlibChainC", "StdlibChainD"} {
 		defOp(name, "", stdlibChain, selAny)
 	}
 	// the type-level entry point asked about two types that print alike and are different types (twin capsule types,
@@ -305,7 +305,7 @@ func stdlibChain(t *taskState, a [3]cty.Value, p [3]int) opRes {
 		args := make([]cty.Value, len(sp.args))
 		for i := range args {
 			args[i] = typedArg(t, sp.args[i], p[1]+try+i*(p[2]|1))
-			if sp.args[i] >= 'a' && sp.args[i] <= 'z' && (p[1]/3+i+try)%4 == 0 {
+			if sp.args[i] >= 'a' && sp.args[i] <= 'z' && (p[1]/3+i+try)%3 == 0 {
 				if u, _ := args[i].Unmark(); u.Type() != cty.DynamicPseudoType {
 					args[i] = cty.UnknownVal(u.Type())
 				}
@@ -357,7 +357,7 @@ func stdlibChain(t *taskState, a [3]cty.Value, p [3]int) opRes {
 	res := opRes{vals: []cty.Value{r1}, s: sp.name, violClass: "mutated-by-call"}
 	fpMid := fp(r1)
 	mid := r1
-	if p[2]%4 == 1 {
+	if p[2]%2 == 1 {
 		// what is known about the intermediate result is only its type (which it shares with the value)
 		mid = cty.UnknownVal(ur1.Type())
 	}
